@@ -19,6 +19,8 @@ PROP = {'drive': ['Cmapx'], 'harness_files': ['area_cmapx.go'], 'modules': ['Sfn
                        'C09_best',
                        'C09_best_none',
                        'C09_install',
+                       'C09_install_keys',
+                       'C09_coderange_order',
                        'C09_generated_facts',
                        'C09_fmt12_orig_wrap',
                        'C09_fmt12_maxkey_refused',
@@ -46,6 +48,11 @@ PROP = {'drive': ['Cmapx'], 'harness_files': ['area_cmapx.go'], 'modules': ['Sfn
                            'the shape of mac.DecodeOne (identity below 128, dec[c-128] above) and of the closure in '
                            'Table.Get (mac.DecodeOne(byte(code)), platform 1 / encoding 0, passed to every decoder) is '
                            'checked textually by the extractor, not by a theorem',
+                           'CodeRange of Format0/Format4/format 6 maps and the whole of Font.InstallCMap are checked by '
+                           'direct predicates (streams cmapx.coderange, cmapx.installspec: each call repeated 24 times on '
+                           'freshly built maps because the result must not depend on Go map iteration order; maps with '
+                           '0-3 entries, codes 0, 0xFFFF, 0x10000, 0x10FFFF); only Format12.CodeRange high and the key '
+                           'choice have a Lean model (C09_install_keys)',
                            'uint32 wrap of offsets in Table.Encode and of the length in Format12.Encode '
                            '(outputs of 4 GiB) is modelled (mod 2^32 / panic) but cannot be exercised'],
  'assumptions': ['Format12: a Go map uint32->glyph.ID is its list of entries sorted by key (Map32: keys strictly '
